@@ -214,7 +214,9 @@ def run_lines(res, maxlen):
 
 # ---------------------------------------------------------------- generators for texts and policies
 
-ATOMS = ["alice", "data1", "read", "a b", "#x", "é ü", "x#y", "r.sub.Age > 18", "/a/*", "p", "g", "_", "ß", "中文", "a\tb", "a\xa0b", "a\rb", "-"]
+ATOMS = ["alice", "data1", "read", "a b", "#x", "é ü", "x#y", "r.sub.Age > 18", "/a/*", "p", "g", "_", "ß", "中文", "a\tb", "a\xa0b", "a\rb", "-",
+         # characters that str.splitlines (but not split("\n") / binary line iteration) treats as line boundaries, inside a value
+         "a\x0bb", "a\x0cb", "a\x1cb", "a\x1db", "a\x1eb", "a\x85b", "a\u2028b", "a\u2029b"]
 BR = [("(", ")"), ("[", "]")]
 
 
